@@ -12,7 +12,7 @@ import (
 
 // limiter slice: the real rate limiter behind the virtual stopwatch hook.
 //
-//	limiter cfg smooth <intervalNs> | cfg bursty <permits> <periodNs>
+//	limiter cfg smooth <intervalNs> | cfg smoothp <maxExecutions> <periodNs> | cfg bursty <permits> <periodNs>
 //	limiter t <ns>                      set the virtual stopwatch
 //	limiter acq <k> <maxWaitNs|-1>      ReservePermits(k) when maxWait = -1, else TryReservePermits(k, maxWait)  => wait | -1
 //	limiter try <k>                     TryAcquirePermits(k)                                                   => true | false
@@ -35,6 +35,9 @@ func (s *limiterSlice) exec(t []string) string {
 	case "cfg":
 		if t[1] == "smooth" {
 			s.l = ratelimiter.SmoothBuilderWithMaxRate[any](time.Duration(atoi(t[2]))).Build()
+		} else if t[1] == "smoothp" {
+			// the (max executions, period) constructor: one permit per period / maxExecutions, also when that does not divide evenly
+			s.l = ratelimiter.SmoothBuilder[any](uint(atoi(t[2])), time.Duration(atoi(t[3]))).Build()
 		} else {
 			s.l = ratelimiter.BurstyBuilder[any](uint(atoi(t[2])), time.Duration(atoi(t[3]))).Build()
 		}
@@ -80,7 +83,12 @@ func genLimiter(r *rand.Rand, n int, tier string, emit func(string) string) {
 		const unit = int64(10e9)
 		pp := pick(r, int64(1), 2, 3)
 		if r.Intn(2) == 0 {
-			emit(fmt.Sprintf("limiter cfg smooth %d", unit))
+			if mx := int64(2 + r.Intn(9)); r.Intn(4) == 0 && unit >= 2 {
+				// the same limiter through the (max executions, period) constructor, with a period that leaves a remainder
+				emit(fmt.Sprintf("limiter cfg smoothp %d %d", mx, unit*mx+int64(r.Intn(int(mx)))))
+			} else {
+				emit(fmt.Sprintf("limiter cfg smooth %d", unit))
+			}
 		} else {
 			emit(fmt.Sprintf("limiter cfg bursty %d %d", pp, unit))
 		}
@@ -104,7 +112,12 @@ func genLimiter(r *rand.Rand, n int, tier string, emit func(string) string) {
 		var pp int64 = 1
 		if r.Intn(2) == 0 {
 			unit = pick(r, units...)
-			emit(fmt.Sprintf("limiter cfg smooth %d", unit))
+			if mx := int64(2 + r.Intn(9)); r.Intn(4) == 0 && unit >= 2 {
+				// the same limiter through the (max executions, period) constructor, with a period that leaves a remainder
+				emit(fmt.Sprintf("limiter cfg smoothp %d %d", mx, unit*mx+int64(r.Intn(int(mx)))))
+			} else {
+				emit(fmt.Sprintf("limiter cfg smooth %d", unit))
+			}
 		} else {
 			unit = pick(r, units...)
 			pp = pick(r, int64(1), 2, 3, 5, 10, 100)
